@@ -353,6 +353,11 @@ F("Tausche@Text", {"v": "Tausche"}, "Sortierung", ["X", "X"], None, "Tausche {0}
 F("Quicksort_Ref", {"v": "Quicksort_Ref"}, "Sortierung", ["ZL"], None, "Sortiere {0}.", lambda l: ok(None, sorted(l)), refs=[0], fam="sort", grid="sort")
 F("Quicksort_Ref_b", {"v": "Quicksort_Ref"}, "Sortierung", ["ZL"], None, "Sortiere {0} mit quick-sort.", lambda l: ok(None, sorted(l)), refs=[0], fam="sort", grid="sort", model="Quicksort_Ref")
 F("Quicksort", {"v": "Quicksort", "x": "Quicksort"}, "Sortierung", ["ZL"], "ZL", "({0} sortiert)", lambda l: ok(sorted(l), l), fam="sort", grid="sort")
+# deep-stack family: adversarial lists that keep more than 50 ranges pending on the module-level work stack
+F("Quicksort_Ref@tief", {"v": "Quicksort_Ref"}, "Sortierung", ["ZN"], None, "Sortiere {0}.", lambda l: ok(None, sorted(l)), refs=[0], fam="sort", grid="deep", model="Quicksort_Ref")
+F("Quicksort_Ref_b@tief", {"v": "Quicksort_Ref"}, "Sortierung", ["ZN"], None, "Sortiere {0} mit quick-sort.", lambda l: ok(None, sorted(l)), refs=[0], fam="sort", grid="deep", model="Quicksort_Ref")
+F("Quicksort@tief", {"v": "Quicksort", "x": "Quicksort"}, "Sortierung", ["ZN"], "ZN", "({0} sortiert)", lambda l: ok(sorted(l), l), fam="sort", grid="deep", model="Quicksort")
+F("Quicksort@Kommazahl_tief", {"v": "Quicksort"}, "Sortierung", ["KN"], "KN", "({0} sortiert)", lambda l: ok(sorted(l), l), fam="sort", grid="deep", model="Quicksort")
 F("Quicksort@Kommazahl", {"v": "Quicksort"}, "Sortierung", ["KL"], "KL", "({0} sortiert)", lambda l: ok(sorted(l), l), fam="sort", grid="sort", model="Quicksort")
 
 
